@@ -104,6 +104,9 @@ def cases(tier):
                             ders = (True,) if meth == "Spline" else ((False, True) if (combo == "param" and d >= 1 and width == 1) else (False,))
                             for wd in ders:
                                 out.append(dict(kind="signal", d=d, N=N, grid=g, method=meth, width=width, M=2 if N == 2 else 1, combo=combo, with_der=wd))
+                                if combo == "param" and N in (2, 3) and g == "geom":
+                                    # the coefficients of the parameter are changed after a first transcription
+                                    out.append(dict(kind="signal", d=d, N=N, grid=g, method=meth, width=width, M=2 if N == 2 else 1, combo=combo, with_der=wd, late=True))
     if have_networkx():
         chains = [(1,), (2,), (3,), (4,), (1, 2), (2, 2), (3, 1), (2, 3), (1, 2, 3), (2, 1, 2)]
         for ch in chains:
@@ -207,7 +210,8 @@ def run_signal(case):
     obj = ocp.at_tf((p - 1) ** 2)
     if combo in ("param", "both"):
         pb = ocp.parameter(width, grid="bspline", order=d)
-        ocp.set_value(pb, coeff)
+        # (late: other coefficients first; the final ones are given after a first transcription)
+        ocp.set_value(pb, -coeff - 0.3 if case.get("late") else coeff)
         obj = obj + ocp.sum((u - pb[0]) ** 2)
     if combo in ("var", "both"):
         vb = ocp.variable(width, grid="bspline", order=d)
@@ -235,6 +239,10 @@ def run_signal(case):
         except Exception as e:
             vios.append(dict(sig="exception:der:signal", tags=tags, detail="der of a B-spline parameter raised %s: %s" % (type(e).__name__, str(e)[:150])))
     try:
+        if case.get("late") and pb is not None:
+            tags.append("late_set_value")
+            ocp.sample(p, grid="control")        # first transcription
+            ocp.set_value(pb, coeff)
         nlp = NL.Nlp(ocp)
         w = NL.generic(nlp.nx, 0, 0, lo=-0.7, hi=1.3)
 
@@ -736,6 +744,6 @@ def run_case(case):
 
 def describe(tier):
     return dict(
-        rule="(a) full product order 0..4 x N x {uniform, geometric, user function} grids: eval_on_knots at the knots, on refinements 1..5 with/without edges and on arbitrary sub-grids, Greville points, bspline_derivative vs an independent Cox-de Boor (scipy BSpline on the clamped knot vector) - basis matrices compared entry-wise, so every coefficient vector is decided; (b) order x N x grid x {SplineMethod, MS, DC} x width: a B-spline parameter with known coefficients and its der / der(der) sampled on every grid option vs scipy on the physical knots; B-spline variable: gist coefficients at Greville points reproduce all refinements (SplineMethod) / samples lie on one degree-d spline with N+d degrees of freedom across refinements (sampling methods); (c) SplineMethod on every integrator-chain system from a 10-element alphabet (lengths 1..4, mixed, vector states) x N x grid: chain dynamics as exact Taylor identities on refine=4 samples, refined time stamps, path-constraint rows at every refined point (refine 1..3), and MS's dynamic rows vanish / objectives agree at the sampled spline trajectory; (d) grid='inf' constraints (state / last chain member / control, with constant offsets, one- and two-sided) under SplineMethod: at the first crossing of the constraint rows' boundary along every alphabet ray the expression satisfies its bounds on a refine=12 sample; (e) linear models that are not pure integrator chains (constant / parametric affine offset in the lowest or an upper member, a gain, a feedback term) under SplineMethod: rejected by transcription time, or the exact derivative of every sampled state polynomial equals the declared right-hand side on every control interval",
+        rule="(a) full product order 0..4 x N x {uniform, geometric, user function} grids: eval_on_knots at the knots, on refinements 1..5 with/without edges and on arbitrary sub-grids, Greville points, bspline_derivative vs an independent Cox-de Boor (scipy BSpline on the clamped knot vector) - basis matrices compared entry-wise, so every coefficient vector is decided; (b) order x N x grid x {SplineMethod, MS, DC} x width: a B-spline parameter with known coefficients (given before the first transcription, or changed after it) and its der / der(der) sampled on every grid option vs scipy on the physical knots; B-spline variable: gist coefficients at Greville points reproduce all refinements (SplineMethod) / samples lie on one degree-d spline with N+d degrees of freedom across refinements (sampling methods); (c) SplineMethod on every integrator-chain system from a 10-element alphabet (lengths 1..4, mixed, vector states) x N x grid: chain dynamics as exact Taylor identities on refine=4 samples, refined time stamps, path-constraint rows at every refined point (refine 1..3), and MS's dynamic rows vanish / objectives agree at the sampled spline trajectory; (d) grid='inf' constraints (state / last chain member / control, with constant offsets, one- and two-sided) under SplineMethod: at the first crossing of the constraint rows' boundary along every alphabet ray the expression satisfies its bounds on a refine=12 sample; (e) linear models that are not pure integrator chains (constant / parametric affine offset in the lowest or an upper member, a gain, a feedback term) under SplineMethod: rejected by transcription time, or the exact derivative of every sampled state polynomial equals the declared right-hand side on every control interval",
         bound="order<=4, N<=%d" % (8,),
         assumptions=["scipy.interpolate.BSpline is the independent Cox-de Boor oracle", "SplineMethod cases need the networkx wheel"])
